@@ -405,6 +405,126 @@ fn run(ctx: &mut Ctx) {
             }
         }
     }
+    large(ctx);
+}
+
+/// Counter boundaries: many entries, long names.
+fn large(ctx: &mut Ctx) {
+    let big = Arena::new(1100);
+    let st = Arena::new_low(20);
+    let counts: Vec<u32> = if ctx.quick() { vec![255, 256, 257, 4096, 65279, 65280, 65536, 65537] } else { vec![254, 255, 256, 257, 1023, 1024, 1025, 4095, 4096, 4097, 32767, 32768, 65279, 65280, 65281, 65534, 65535, 65536, 65537, 70000] };
+    ctx.bound("large_counts", format!("N in {:?} entries, both layouts, all unused (type 0) except entries 0, 1, N/2, N-2 (in use) and N-1 (the string table); the whole iteration (collect, count, last, len) against the reference list, names resolved", counts));
+    for layout in [64u32, 40] {
+        for &n in &counts {
+            let describe = || J::obj().set("part", "large_counts").set("layout", layout).set("entries", n);
+            ctx.leaf(describe, |ctx| {
+                ctx.state_direct();
+                ctx.nontrivial();
+                st.fill(0xEE);
+                let strtab_base = st.place_right(STRTAB) as u64;
+                let stride = layout as usize;
+                let mut sec = vec![0u8; n as usize * stride];
+                let inuse: Vec<u32> = { let mut v = vec![0, 1, n / 2, n - 2, n - 1]; v.sort_unstable(); v.dedup(); v };
+                for &i in &inuse {
+                    let t = if i == n - 1 { 3 } else { 1 };
+                    let name = NAMEIDX[i as usize % NAMEIDX.len()];
+                    let e = if layout == 40 { bi::enc_shdr32(name, t, 2, if i == n - 1 { strtab_base as u32 } else { 0x1000 + i }, 0, 0x10 + i, 0, 0, 4, 0) } else { bi::enc_shdr64(name, t, 2, if i == n - 1 { strtab_base } else { 0x1_0000_1000 + i as u64 }, 0, 0x10 + i as u64, 0, 0, 4, 0) };
+                    sec[i as usize * stride..(i as usize + 1) * stride].copy_from_slice(&e);
+                }
+                let mut img = bi::enc_elf(n, layout, n - 1, &sec);
+                while img.len() % 8 != 0 {
+                    img.push(0xF5);
+                }
+                big.fill(arena::FILL_A);
+                let p = big.place_right(&img);
+                let slice: &[u8] = unsafe { std::slice::from_raw_parts(p, img.len()) };
+                let tag = Generic::ref_from_slice(slice).unwrap().cast::<ElfSectionsTag>();
+                let r = ctx.call("sections/collect/count/last/len", || {
+                    let all: Vec<(u32, u64, u64, String)> = tag.sections().map(|s| (s.section_type_raw(), s.start_address(), s.size(), s.name().map(|x| x.to_string()).unwrap_or_else(|_| "<utf8>".into()))).collect();
+                    let cnt = tag.sections().count();
+                    let last = tag.sections().last().map(|s| s.start_address());
+                    let len = tag.sections().len();
+                    (all, cnt, last, len)
+                });
+                let want: Vec<(u32, u64, u64, String)> = inuse
+                    .iter()
+                    .map(|&i| {
+                        let start = NAMEIDX[i as usize % NAMEIDX.len()] as usize;
+                        let nm = &STRTAB[start..start + STRTAB[start..].iter().position(|&b| b == 0).unwrap()];
+                        let addr = if i == n - 1 { if layout == 40 { strtab_base as u32 as u64 } else { strtab_base } } else if layout == 40 { 0x1000 + i as u64 } else { 0x1_0000_1000 + i as u64 };
+                        (if i == n - 1 { 3 } else { 1 }, addr, 0x10 + i as u64, String::from_utf8_lossy(nm).to_string())
+                    })
+                    .collect();
+                match r {
+                    Out::Panic => ctx.violation("c19/large/spurious-panic", || format!("iterating a fitting tag of {} entries of {} bytes panicked", n, layout)),
+                    Out::Val((all, cnt, last, len)) => {
+                        ctx.ob("large.items", all.len() as u64);
+                        if all != want {
+                            ctx.violation("c19/large/items", || format!("{} entries of {} bytes: yielded {} sections {:x?}, reference {:x?}", n, layout, all.len(), all.iter().take(6).collect::<Vec<_>>(), want));
+                        } else if cnt != want.len() || last != want.last().map(|w| w.1) || len < want.len() || len > n as usize {
+                            ctx.violation("c19/large/adapters", || format!("{} entries: count() {}, last() {:x?}, len() {}; reference has {} in-use sections", n, cnt, last, len, want.len()));
+                        } else {
+                            ctx.class("elf:large");
+                        }
+                    }
+                }
+            });
+        }
+    }
+    let mut lens: Vec<usize> = if ctx.quick() { vec![0, 1, 31, 32, 127, 128, 254, 255, 256, 257, 4096, 65535, 65536] } else { (0..=300).collect() };
+    if !ctx.quick() {
+        lens.extend([511, 512, 513, 1023, 1024, 1025, 4095, 4096, 4097, 32767, 32768, 65534, 65535, 65536, 65537, 70000]);
+    }
+    ctx.bound("long_names", format!("section names of length {}: a program section whose name has that length, resolved through the string table entry, both layouts; ASCII and a 2-byte UTF-8 sequence straddling every boundary", if ctx.quick() { format!("{:?}", lens) } else { "0..=300, 511..513, 1023..1025, 4095..4097, 32767, 32768, 65534..65537, 70000".into() }));
+    for layout in [64u32, 40] {
+        for &l in &lens {
+            for utf in [false, true] {
+                let describe = || J::obj().set("part", "long_names").set("layout", layout).set("name_len", l).set("two_byte_chars", utf);
+                ctx.leaf(describe, |ctx| {
+                    ctx.state_direct();
+                    ctx.nontrivial();
+                    // string table: NUL, name, NUL
+                    let mut tab = vec![0u8];
+                    if utf {
+                        // 'é' (C3 A9) repeated, an ASCII letter in front when the length is odd
+                        if l % 2 == 1 {
+                            tab.push(b'x');
+                        }
+                        while tab.len() - 1 < l {
+                            tab.extend_from_slice(&[0xC3, 0xA9]);
+                        }
+                    } else {
+                        tab.extend((0..l).map(|i| b'a' + (i % 26) as u8));
+                    }
+                    tab.push(0);
+                    tab.extend_from_slice(b"tail\0");
+                    st.fill(0xEE);
+                    let base = st.place_right(&tab) as u64;
+                    let stride = layout as usize;
+                    let mut sec = vec![0u8; 2 * stride];
+                    let e0 = if layout == 40 { bi::enc_shdr32(1, 1, 2, 0x1000, 0, 0x10, 0, 0, 4, 0) } else { bi::enc_shdr64(1, 1, 2, 0x1000, 0, 0x10, 0, 0, 4, 0) };
+                    let e1 = if layout == 40 { bi::enc_shdr32(0, 3, 0, base as u32, 0, tab.len() as u32, 0, 0, 1, 0) } else { bi::enc_shdr64(0, 3, 0, base, 0, tab.len() as u64, 0, 0, 1, 0) };
+                    sec[..stride].copy_from_slice(&e0);
+                    sec[stride..].copy_from_slice(&e1);
+                    let mut img = bi::enc_elf(2, layout, 1, &sec);
+                    while img.len() % 8 != 0 {
+                        img.push(0xF5);
+                    }
+                    big.fill(arena::FILL_B);
+                    let p = big.place_right(&img);
+                    let slice: &[u8] = unsafe { std::slice::from_raw_parts(p, img.len()) };
+                    let tag = Generic::ref_from_slice(slice).unwrap().cast::<ElfSectionsTag>();
+                    let r = ctx.call("name", || tag.sections().next().map(|s| s.name().map(|x| (x.as_ptr() as u64, x.len(), hash::hash_bytes(x.as_bytes())))));
+                    let want = &tab[1..1 + l];
+                    match r {
+                        Out::Val(Some(Ok((ptr, len, h)))) if ptr == base + 1 && len == l && h == hash::hash_bytes(want) => ctx.class("elf:long-name"),
+                        Out::Val(other) => ctx.violation("c19/long-name", || format!("name of {} bytes: name() = {:?} (pointer offset, length, hash); expected length {} at string-table offset 1", l, other.map(|o| o.map(|(p, n, h)| (p.wrapping_sub(base), n, h))), l)),
+                        Out::Panic => ctx.violation("c19/spurious-panic/name", || format!("name() panicked on a name of {} bytes", l)),
+                    }
+                });
+            }
+        }
+    }
 }
 
 fn main() {
